@@ -365,11 +365,12 @@ func (s *Sched) enabled(buf []*G) []*G {
 }
 
 type Outcome struct {
-	Deadlock bool  // nothing runnable, no timer, goroutines alive
-	Horizon  bool  // virtual horizon reached with goroutines alive
-	Aborted  bool  // MaxSteps reached
-	Alive    []*G  // goroutines not finished when the run ended
-	EndNS    int64 // virtual time at the end
+	Deadlock  bool     // nothing runnable, no timer, goroutines alive
+	Horizon   bool     // virtual horizon reached with goroutines alive
+	Aborted   bool     // MaxSteps reached
+	Alive     []*G     // goroutines not finished when the run ended
+	AliveDesc []string // their description, taken before they were killed
+	EndNS     int64    // virtual time at the end
 }
 
 // Run executes main under the scheduler until every goroutine is done, a deadlock,
@@ -379,6 +380,7 @@ func (s *Sched) Run(main func()) (out Outcome) {
 	S = s
 	defer func() {
 		out.EndNS = s.now
+		out.AliveDesc = Describe(out.Alive)
 		s.killAll()
 		S = nil
 	}()
@@ -618,6 +620,9 @@ func Describe(gs []*G) []string {
 		st := "runnable"
 		if g.state == gBlocked {
 			st = "blocked on " + g.What
+		}
+		if g.state == gBlocked && g.wakeAt > 0 {
+			st += fmt.Sprintf(" (wake at %v)", time.Duration(g.wakeAt))
 		}
 		out = append(out, fmt.Sprintf("g%d [%s] node=%s %s", g.ID, g.Name, g.Node, st))
 	}
